@@ -88,6 +88,9 @@ def semiring(name):
     if name == "Lang":
         from harness.langsemi import Lang
         return Lang
+    if name == "Exact":
+        from harness.exactsemi import Exact
+        return Exact
     from genlm.grammar import semiring as S
     return getattr(S, name)
 
@@ -107,8 +110,8 @@ def mk_w(s, R, exact=False):
         p, r = s
         return semiring(R)(float(Fraction(p)), float(Fraction(r)))
     q = Fraction(s)
-    v = q if exact else float(q)
-    if R == "Float":
+    v = q if (exact or R == "Exact") else float(q)
+    if R in ("Float", "Exact"):
         return v
     return semiring(R)(v)
 
@@ -121,7 +124,7 @@ def enc_w(w, R):
         return sorted(w.score)
     if R in ("Expectation", "Entropy"):
         return [frac_str(w.score[0]), frac_str(w.score[1])]
-    v = w if R == "Float" else w.score
+    v = w if R in ("Float", "Exact") else w.score
     if isinstance(v, float) and (math.isinf(v) or math.isnan(v)):
         return "inf" if v > 0 else ("-inf" if v < 0 else "nan")
     if hasattr(v, "item"):
